@@ -45,17 +45,20 @@ claim("C03", TV,
       "(incl. f-strings) and lists (incl. for loops) are modelled; script/registered constants and panicking host functions are not.",
       "path-wise symbolic execution of emitted CLIF with an ownership ledger; path feasibility by z3", "T", "DESIGN.md 5/C03")
 claim("C05", MC,
-      "Kani/CBMC, one harness per instantiation (30): for all payload values the repr(u8) mirror of Option/Result/Verdict has tag and payload where "
+      "Kani/CBMC, one harness per instantiation (32, plus a List<Option<bool>> built through the Rust API): for all payload values the repr(u8) mirror of Option/Result/Verdict has tag and payload where "
       "roto's enum layout rule puts them, in both directions, and untransform(transform(v)) == v. Engine T: identity functions, pass-through to host "
-      "functions, Option/Verdict built in the script and read by Rust and vice versa, for all values.",
+      "functions, Option/Verdict built in the script and read by Rust and vice versa, Option/Result built by registered Rust functions and taken apart "
+      "by the script, `()` parameters of registered functions, registered constants, for all values.",
       "Registered constants are read through the bytes hook H2 captures. Machine calling convention (only exercised by replays), "
       "String/List contents and context fields are outside.",
       "Kani/CBMC bounded model checking of the mirror enums + z3 translation validation of boundary identity programs", "K+T", "DESIGN.md 5/C05")
 claim("C06", MC,
       "Kani/CBMC: every token recogniser, skip-and-error path of the lexer on EVERY UTF-8 string of at most 3 bytes (thorough: 4, ASCII 5): no "
-      "panic, token spans start at the cursor, are non-empty, inside the input and on character boundaries; f-string parts; the error-token span.",
-      "Lexer and span layer only - parser, type checker, lowering, module loading are outside (no bound small enough for CBMC contains a "
-      "declaration). Stubs: record_almost_keyword -> no-op; for err_span next_token -> 'skip any prefix and decline'.",
+      "panic, token spans start at the cursor, are non-empty, inside the input and on character boundaries; f-string parts; the error-token span; skip_shebang; the parser's token layer (Parser::next / "
+      "run_parser): every location it cites lies inside the file on character boundaries.",
+      "Lexer, span layer and the parser's token layer only - the parser above it (e.g. literal-suffix error locations), type checker, lowering, module "
+      "loading are outside (no bound small enough for CBMC contains a declaration). Stubs: record_almost_keyword -> no-op; next_token -> 'skip any prefix "
+      "and decline' (err_span) / 'skip known whitespace and decline' (parser_next, replayable).",
       "Kani/CBMC bounded model checking of src/parser/lexer.rs recognisers over all short UTF-8 inputs", "K", "DESIGN.md 5/C06")
 claim("C08", TV,
       "For every program of F7/F7R/F6/F6R/F11/F12E/F13 (effectful host calls at every operand, argument, field, list element, f-string part, guard, "
@@ -102,7 +105,8 @@ claim("C20", TV,
       "Engine M: for every scalar program of the corpus without calls (straight-line, branching and looping), the LIR the real lowering produced is run "
       "path-wise through the MIR of the evaluator's instruction arms (symbolic payloads) and z3 decides that, wherever the evaluator does not stop loudly, "
       "its value equals the emitted CLIF's value on every jointly feasible path pair, in both overflow-check profiles; trapping inputs of the compiled "
-      "code must be loud stops. Kani: the evaluator's checked memory model.",
+      "code must be loud stops. Unit obligation from the same MIR dump: <IrValue as PartialEq>::eq on every pair of variants either stops loudly or answers "
+      "the equality of the bit patterns. Kani: the evaluator's checked memory model (bounds, alignment, offsets accumulate, popped frames).",
       "Agreement for Assign/Add/Sub/Mul/Div/Mod/FDiv/IntCmp/FloatCmp/Not/Negate/Jump/Switch (switch_on through its MIR, the branch-table lookup modelled); "
       "Call/Return frames, CallRuntime, memory instructions through eval, and host-call-sequence equality are outside.",
       "symbolic interpretation of rustc MIR slices of lir::eval::eval compared in z3 with the CLIF encoding; Kani on eval::Memory", "M+K", "DESIGN.md 5/C20, 10.5")
